@@ -99,6 +99,8 @@ CoarseDefectOK == (Full /\ MODE = "transfer" /\ RowsSumToOne(L.T.Rc, L.G.M, L.M)
                        CoarseDefectIsRestrictedFineDefect(L, L.G, L.T, L.u0, L.U, L.tau)
 DownUpOK == (Full /\ MODE = "transfer" /\ RowsSumToOne(L.T.Rc, L.G.M, L.M)) =>
                        DownUpPreservesFixedPoint(L, L.G, L.T, L.kind, L.u0, L.U, L.tau)
+DownUpFOK == (Full /\ MODE = "transfer" /\ RowsSumToOne(L.T.Rc, L.G.M, L.M)) =>
+                       DownUpFPreservesFixedPoint(L, L.G, L.T, L.kind, L.u0, L.U, L.tau)
 \* documented NON-theorem: without H1 the restricted fine solution is in general not a coarse fixed point
 DownUpWithoutH1 == (Full /\ MODE = "transfer") => DownUpPreservesFixedPoint(L, L.G, L.T, L.kind, L.u0, L.U, L.tau)
 
